@@ -396,6 +396,7 @@ func c07Eval(c c07Case) (ok bool, sig, detail string) {
 	}
 	out := c07Scan(data, mode, c.RA)
 	what := fmt.Sprintf("seed %s crlf=%v mutation %s(%d,%d) reader %s/%d", c.Seed, c.CRLF, c.Mut, c.A, c.B, mode, c.RA)
+	engine.Outcome(fmt.Sprintf("%d|%v|%x", len(out.recs), out.errText != "", engine.Hash(strings.Join(out.recs, "|"))))
 	if out.hung {
 		return false, "hang", what + ": the scanner did not return within 20 s (normal cost < 10 ms)"
 	}
